@@ -652,6 +652,13 @@ impl<K: Eq, V> FoldMap<K, V> {
     }
   }
 
+  pub fn get_mut(&mut self, k: &K) -> Option<&mut V> {
+    match self.position(k) {
+      Some(at) => Some(self.slot_mut(at)),
+      None => None,
+    }
+  }
+
   pub fn entry(&mut self, k: K) -> FoldEntry<'_, K, V> {
     let pos = self.position(&k);
     FoldEntry {
